@@ -43,7 +43,7 @@ def water_viscosity(T=None, eta20=None, units=None, warn=True):
     t20 = t - 20 * K
     exponent = (-A * t20 - B / K * t20 ** 2) / (t + C * K)
     if units is not None:
-        exponent = float(exponent.simplified)
+        exponent = exponent.simplified.magnitude
     return eta20 * 10 ** exponent
 
 
